@@ -705,6 +705,11 @@ class VMF:
         except ValueError:
             pass  # Already removed.
 
+        if item is self.spawn or item in self.entities:
+            # The worldspawn entity cannot be removed, and an entity that was added
+            # more than once is still in the map: both stay in the lookup tables.
+            return
+
         _remove_copyset(self.by_class, item['classname'].casefold(), item)
         _remove_copyset(self.by_target, item['targetname'].casefold() or None, item)
         if 'nodeid' in item:
